@@ -9,7 +9,7 @@ from vpbt.ctx import Violation
 
 TOP = ["mask", "mask", "static", "vmap"]
 CFG = {"ops": ["update"], "kinds": ["mask"], "change_flag": True, "depths": [0, 1], "nmin": 1}
-CHECKS = {"args", "weight", "assess_agree"}
+CHECKS = {"args", "weight", "assess_agree", "retdiff"}
 
 
 def nontrivial(case, s, infos):
